@@ -82,7 +82,8 @@ class Scheduler:
         if isinstance(event, DelayedEvent):
             if event.delay > 0:
                 event.delay -= dt
-                self.delayed_events += [event]
+                # events are popped from the end of the queue: prepend to keep their relative order
+                self.delayed_events.insert(0, event)
                 return None
         return event
 
